@@ -4,7 +4,7 @@ C: `sfs create | sfs stat -s ... --precision 12` against the same quantities com
 the genotypes (vf.oracle.stats.from_genotypes). L: Spectrum statistic methods on 1-D count spectra
 with n = 3..600 against the published estimator formulas with rational harmonic sums.
 """
-import math
+import math, re
 from fractions import Fraction
 from .. import harness, cli
 from ..common import rng_for, h2f, digest
@@ -17,7 +17,7 @@ LEVEL = "exploration"
 NEEDS = ["harness", "cli"]
 RULE = ("C: complete-data call sets with 1-4 populations of UNEQUAL sizes (two single-individual populations for R0/R1/KING), allele "
         "frequencies spread over the whole range incl. fixed-ALT sites, 5-300 records; every statistic defined for the dimensionality is "
-        "requested in one `stat` call with --precision 12 and compared with the genotype-level value (abs 1e-9 + rel 1e-9 + 0.5e-12); L: "
+        "requested in one `stat` call with --precision 12 and compared with the genotype-level value (abs 1e-9 + rel 1e-9 + 0.5e-12), and again at coarse precisions 0-6 (one for all / one per statistic) where every token must be the exact value rounded to its own printed digits; L: 1-D spectra of 3-600 chromosomes and two of more than 2^16; "
         "1-D count spectra with n in 3..600 chromosomes (random, sparse, singleton-heavy, mass in the last class) against the published "
         "formulas. Statistics whose exact denominator is 0 are skipped (trivial). Non-trivial: S >= 2 and not all sites identical; distinct = "
         "digest(genotype codes, map) / digest(spectrum). Each statistic has its own counter and floor.")
@@ -25,7 +25,7 @@ ASSUMPTIONS = ["reference values use exact rationals; only the final square root
                "Fu and Li's D is the with-outgroup version using derived singletons (Fu and Li 1993), Tajima's D as in Tajima 1989"]
 STATS_BY_DIM = {1: ["sum", "s", "pi", "theta", "d-tajima", "d-fu-li"], 2: ["sum", "s", "f2", "fst", "pi-xy"], 3: ["sum", "s", "f3"], 4: ["sum", "s", "f4"]}
 ALL14 = ["d-fu-li", "d-tajima", "f2", "f3", "f4", "fst", "king", "pi", "pi-xy", "r0", "r1", "s", "sum", "theta"]
-FLOORS = {"quick": {"evaluations": 1500, "distinct_nontrivial": 1000, "counts": dict({"C_pipelines": 250, "L_spectra": 1500}, **{"stat_" + s: 20 for s in ALL14})},
+FLOORS = {"quick": {"evaluations": 1500, "distinct_nontrivial": 1000, "counts": dict({"C_pipelines": 250, "L_spectra": 1500, "L_huge_samples": 2}, **{"stat_" + s: 20 for s in ALL14})},
           "thorough": {"evaluations": 60000, "distinct_nontrivial": 40000, "counts": dict({"C_pipelines": 8000, "L_spectra": 60000}, **{"stat_" + s: 500 for s in ALL14})}}
 NSHARD = 32
 
@@ -111,6 +111,31 @@ def check_C(S, p):
                 g = float("nan")
             if not close(g, e):
                 S.viol("C06:genotype-definition:%s" % nm, "[C sizes %r, %d records] stat %s printed %s, from the genotypes %.12f" % (sizes, len(cs.records), nm, tok, float(e)), wit)
+        # the same statistics at a coarse precision (one value for all, or one per statistic): whatever a token's spelling, it must be
+        # within half a unit of ITS OWN last printed digit of the exact value - sign included
+        precs = [rng.choice([0, 1, 2, 3, 4, 6]) for _ in names]
+        one = rng.random() < 0.5
+        if one:
+            precs = [precs[0]] * len(names)
+        c2 = cli.sfs(["stat", "-s", ",".join(names), "-p", str(precs[0]) if one else ",".join(map(str, precs))], stdin=a.out)
+        S.count("C_coarse_precision_runs")
+        toks2 = c2.out.decode().strip().split(",") if c2.rc == 0 else []
+        if len(toks2) != len(names):
+            S.viol("C06:format", "[C stat -p %r] rc %s, %d values for %d statistics: %r %r" % (precs, c2.rc, len(toks2), len(names), c2.out[:100], c2.err[:100]), dict(wit, coarse=c2.brief()))
+        else:
+            for nm, tok, pr in zip(names, toks2, precs):
+                e = exact.get(nm)
+                if e is None:
+                    continue
+                m_ = re.match(r"^(-?)([0-9]+)(?:\.([0-9]+))?(?:[eE]([-+]?[0-9]+))?$", tok)
+                if not m_:
+                    S.viol("C06:coarse-precision:%s" % nm, "[C sizes %r] stat %s -p %d printed %r: not a number (exact %.12g)" % (sizes, nm, pr, tok, float(e)), dict(wit, coarse=c2.brief()))
+                    continue
+                unit = Fraction(10) ** (int(m_.group(4) or 0) - len(m_.group(3) or ""))
+                S.count("coarse_tokens")
+                if abs(Fraction(tok) - Fraction(e)) > unit / 2 + Fraction(1, 10 ** 9) * (1 + abs(Fraction(e))):
+                    S.viol("C06:coarse-precision:%s" % nm, "[C sizes %r, %d records] stat %s -p %d printed %r, which is not the exact value %.12g rounded to the printed digits" % (
+                        sizes, len(cs.records), nm, pr, tok, float(e)), dict(wit, coarse=c2.brief()))
         S.case(key=digest([E.codes(cs), E.map_json(smap)]), nontrivial=exact.get("s", 0) >= 2)
         if i == 0 and p["i"] == 0:
             S.sample({"level": "C", "population_sizes": sizes, "records": len(cs.records), "stat_argv": b.argv, "stdout": b.out.decode().strip(),
@@ -139,9 +164,20 @@ def check_L(S, p):
             c[0] = rng.randrange(0, 100000)
         reqs.append({"op": "spec", "do": "stats", "shape": [n + 1], "data": GS.hexes([float(x) for x in c])})
         meta.append((n, c, style))
-    for (n, c, style), r in zip(meta, harness.run_all(reqs)):
+    if p["i"] % 16 == 0:
+        # a sample of more than 2^16 chromosomes (biobank scale): counters and products of the sample size must not wrap
+        rng = rng_for(seed, "c06", p["name"], "huge")
+        n = rng.choice([66000, 65537, 70001, 131073])
+        c = [0] * (n + 1)
+        for k in [1, 2, 3, n // 2, n - 1] + [rng.randrange(1, n) for _ in range(40)]:
+            c[k] += rng.randrange(1, 500)
+        c[1] += 3000
+        reqs.append({"op": "spec", "do": "stats", "shape": [n + 1], "data": GS.hexes([float(x) for x in c])})
+        meta.append((n, c, "huge"))
+        S.count("L_huge_samples")
+    for (n, c, style), r in zip(meta, harness.run_all(reqs, timeout=1200)):
         S.count("L_spectra")
-        exact = OS.from_spectrum_1d(c)
+        exact = OS.from_spectrum_1d(c) if n < 5000 else OS.from_spectrum_1d_float(c)
         wit = {"level": "L", "counts": c if n < 60 else c[:60], "n": n, "style": style}
         for nm in ("sum", "s", "pi", "theta", "d-tajima", "d-fu-li"):
             e = exact.get(nm)
